@@ -92,6 +92,8 @@ class GaussianMLPEnsemble(nnx.Module):
             log_var = min_log_var + nnx.softplus(log_var - min_log_var)
             return log_var
 
+        # elementwise with one bound per output: broadcasts over leading axes
+        self._safe_log_var_base = safe_log_var
         self._safe_log_var_i = nnx.vmap(safe_log_var, in_axes=(0, None, None))
         self._safe_log_var = nnx.vmap(
             self._safe_log_var_i,
@@ -184,7 +186,7 @@ class GaussianMLPEnsemble(nnx.Module):
         state_i = jax.tree.map(lambda x: x[i], state)
         base_model = nnx.merge(graphdef, state_i)
         mean_i, log_var_i = base_model(x)
-        log_var_i = self._safe_log_var(
+        log_var_i = self._safe_log_var_base(
             log_var_i, self.min_log_var, self.max_log_var
         )
         return mean_i, jnp.exp(log_var_i)
@@ -211,7 +213,7 @@ class GaussianMLPEnsemble(nnx.Module):
         state_i = jax.tree.map(lambda x: x[i], state)
         base_model = nnx.merge(graphdef, state_i)
         mean_i, log_var_i = base_model(x)
-        log_var_i = self._safe_log_var_i(
+        log_var_i = self._safe_log_var_base(
             log_var_i, self.min_log_var, self.max_log_var
         )
         std_i = jnp.exp(0.5 * log_var_i)
